@@ -802,3 +802,19 @@ theorem C13_close_error_valid_message (c : Nat) (m : Bytes) (hc : c < 2 ^ 32) (h
   rw [toValidUTF8_ascii_prefix _ _ (reasonPrefix_ascii c hc), toValidUTF8_id m hm]
   unfold closeReason maxCloseReasonLen
   rw [if_pos hlen]
+
+/-- Facts tie for the hand-off LTS (regenerated from webbridge/websocket.go on every run): `OnMessage` blocks in
+    `select { stream.events <- event; <-stream.done }` (labels `handoff` / `onDone`), `Recv` in
+    `select { <-s.events; <-ctx.Done() }` (`handoff` / `recvClosed` / `recvCtx`), `close(stream.events)` is guarded by
+    `!ClientStreaming` (`finishOnMessage`), the goroutine running `ReadLoop` defers `cancel()` and `wg.Done()`
+    (`readerExit` cancels and releases `wg.Wait()`), and the handler closes `done` before `wg.Wait()` (`closeDone`
+    precedes the wait; fact shared with C02). A select that loses its `done` case, a dropped `defer cancel()`, a
+    reordered epilogue break this theorem — they are exactly what `C13_ws_no_deadlock` rests on. -/
+theorem C13_facts_handoff_shape :
+    GB.Generated.gwsSelectShape =
+      [("gwsHandler.OnMessage", ["stream.events<-event", "<-stream.done"]),
+       ("gwsStream.Recv", ["ev,ok:=<-s.events", "<-ctx.Done()"])] ∧
+    GB.Generated.gwsReaderDefers = ["wg.Done()", "cancel()"] ∧
+    GB.Generated.gwsEventsCloseGuard = ["!stream.req.route.Method.ClientStreaming"] ∧
+    (GB.Generated.wsEpilogueOrder.find? (·.1 == "TranscodedWebSocketBridge.ServeHTTP")).map (·.2) = some ["closeDone", "wgWait"] := by
+  decide
